@@ -381,10 +381,9 @@ class InterpretedFunctionsRemover(engines.engine.Engine, CompilerMixin):
                 # we need to set the tracker
                 if f not in is_unknown_fluents:
                     continue
-                reset_tracker_eff = self._create_tracking_effect(
+                for reset_tracker_eff in self._create_tracking_effect(
                     ef, is_unknown_fluents, em
-                )
-                if reset_tracker_eff is not None:
+                ):
                     effs.append((time, reset_tracker_eff))
 
         lower, upper = None, None
@@ -503,10 +502,9 @@ class InterpretedFunctionsRemover(engines.engine.Engine, CompilerMixin):
                         n_e = eff_instance.clone()
                         n_e.set_value(exp.substitute(subs))
                         new_effs.append((t, n_e))
-                        reset_tracker_eff = self._create_tracking_effect(
+                        for reset_tracker_eff in self._create_tracking_effect(
                             eff_instance, is_unknown_fluents, em
-                        )
-                        if reset_tracker_eff is not None:
+                        ):
                             new_effs.append((t, reset_tracker_eff))
                     elif case == ElementKind.CONDITION:
                         new_conds.append((t, exp.substitute(subs)))
@@ -659,7 +657,10 @@ class InterpretedFunctionsRemover(engines.engine.Engine, CompilerMixin):
                     if ifs:
                         found_fluents_set.add(f)
                     else:
-                        fs_e = self.free_vars_extractor.get(v)
+                        # the effect's condition decides whether the fluent is written
+                        fs_e = self.free_vars_extractor.get(
+                            v
+                        ) | self.free_vars_extractor.get(ef.condition)
                         for f_e in fs_e:
                             if f_e.fluent() in found_fluents_set:
                                 found_fluents_set.add(f)
@@ -671,29 +672,42 @@ class InterpretedFunctionsRemover(engines.engine.Engine, CompilerMixin):
         ef: Effect,
         is_unknown_fluents: Dict[Fluent, Fluent],
         em: ExpressionManager,
-    ) -> Optional[Effect]:
+    ) -> List[Effect]:
         """
-        Creates, if necessary, a new tracking effect that sets the tracking fluent to unknown if at least one of the fluents in the value is unknown
+        Creates, if necessary, the tracking effects that set the tracking fluent to unknown if at least one of the fluents
+        the new value depends on (the fluents in the value, the fluent itself for an increase or decrease, the fluents in
+        the condition of a conditional effect) is unknown
 
         :param ef: the effect that might cause a value to become unknown
         :param is_unknown_fluents: the dict that maps the tracking fluents to the ones they track
         :param em: the problem's expression manager
-        :return: the newely created effect
+        :return: the newely created effects
         """
         f = ef.fluent.fluent()
         f_list = []
+        if ef.is_increase() or ef.is_decrease():
+            f_list.append(f)
         for v in self.free_vars_extractor.get(ef.value):
-            if v.fluent() in is_unknown_fluents:
+            if v.fluent() in is_unknown_fluents and v.fluent() not in f_list:
                 f_list.append(v.fluent())
+        c_list = []
+        for v in self.free_vars_extractor.get(ef.condition):
+            if v.fluent() in is_unknown_fluents and v.fluent() not in c_list:
+                c_list.append(v.fluent())
 
         o_e = em.Or([em.FluentExp(is_unknown_fluents[vf]) for vf in f_list])
         tracking_fluent_exp = em.FluentExp(is_unknown_fluents[f])
+        c_unknown = em.Or([em.FluentExp(is_unknown_fluents[vf]) for vf in c_list])
 
-        if tracking_fluent_exp == o_e:
-            return None
-
-        reset_tracker_eff = Effect(tracking_fluent_exp, o_e, em.TRUE())
-        return reset_tracker_eff
+        tracking_effs = []
+        if tracking_fluent_exp != o_e:
+            # the effect is known to fire: the new value is known iff what it is computed from is known
+            fires = em.And(ef.condition, em.Not(c_unknown)).simplify()
+            tracking_effs.append(Effect(tracking_fluent_exp, o_e, fires))
+        if c_list:
+            # it is not known whether the effect fires
+            tracking_effs.append(Effect(tracking_fluent_exp, em.TRUE(), c_unknown))
+        return tracking_effs
 
     def _get_effects(self, a: Action) -> Iterable[Tuple[Optional[Timing], Effect]]:
         """
